@@ -376,13 +376,15 @@ impl ClusterHandler for GenCommHandler<'_> {
 
             CommissioningErrorEnum::map(ctx.exchange().with_state(|state| {
                 let sess = ctx.exchange().id().session(&mut state.sessions);
-                let pase_sess_id =
-                    matches!(sess.get_session_mode(), SessionMode::Pase { .. }).then(|| sess.id());
+                // Our own session must survive (expired) until the response is sent: it is
+                // either a PASE session, or possibly a CASE session on the very fabric
+                // that is being rolled back
+                let expire_sess_id = Some(sess.id());
 
                 removed_fabric = state.failsafe.expire(
                     &mut state.fabrics,
                     &mut state.sessions,
-                    pase_sess_id,
+                    expire_sess_id,
                     ctx.networks(),
                     ctx.kv(),
                     notify_mdns,
